@@ -10,6 +10,7 @@ import (
 	"fmt"
 	"html"
 	"io"
+	"log"
 	"log/slog"
 	"math/rand"
 	"net"
@@ -23,6 +24,7 @@ import (
 	"strconv"
 	"strings"
 	"sync"
+	"sync/atomic"
 	"testing"
 	"testing/synctest"
 	"time"
@@ -75,6 +77,7 @@ type World struct {
 	echo      echoStore
 	nclaims   int
 	closers   []func()
+	quiet     atomic.Bool
 }
 
 // claims: requests currently registered at targets (claims minus ends), from the hooks.
@@ -170,15 +173,9 @@ func (w *World) setup(scn int) {
 	cfg := &server.Config{Bind: "127.0.0.1", HttpPort: 80, HttpsPort: 443, AlternateConfigDir: w.dir}
 	w.handler = server.VerifBuildHandler(server.NewServer(cfg, w.router))
 
-	// hooks
-	server.VerifYield = w.onYield
-	server.VerifEmit = w.onEmit
-	server.VerifTransport = func(t *server.Target, tr *http.Transport) {
-		tr.DialContext = w.net.Dialer("req")
-		w.mu.Lock()
-		w.trs = append(w.trs, tr)
-		w.mu.Unlock()
-	}
+	// hooks: installed once for the process; they dispatch to the world that is current
+	installHooks()
+	currentWorld.Store(w)
 	w.net.DialHook = w.dialHook
 
 	w.probeTr = &http.Transport{DialContext: w.net.Dialer("probe"), DisableKeepAlives: true}
@@ -193,7 +190,7 @@ func (w *World) setup(scn int) {
 			panic(err)
 		}
 		isTLS := addr == proxyHTTPS
-		srv := &http.Server{Handler: http.HandlerFunc(func(rw http.ResponseWriter, r *http.Request) {
+		srv := &http.Server{ErrorLog: log.New(&panicLogWriter{w: w}, "", 0), Handler: http.HandlerFunc(func(rw http.ResponseWriter, r *http.Request) {
 			if isTLS {
 				r.TLS = &tls.ConnectionState{HandshakeComplete: true, ServerName: r.Host}
 			}
@@ -235,7 +232,7 @@ func (w *World) teardown() {
 	}
 	trs := append([]*http.Transport(nil), w.trs...)
 	w.mu.Unlock()
-	server.VerifEmit = nil
+	w.quiet.Store(true) // from here on hooks only pass through
 	for _, hc := range hcs {
 		hc.Close()
 	}
@@ -254,8 +251,6 @@ func (w *World) teardown() {
 	w.probeTr.CloseIdleConnections()
 	w.clientTr.CloseIdleConnections()
 	http.DefaultClient.Transport = w.oldProbe
-	server.VerifYield = nil
-	server.VerifTransport = nil
 	// let timers (max-pause, response timeouts) run out so no goroutine is left
 	time.Sleep(2 * time.Minute)
 	synctest.Wait()
@@ -408,6 +403,34 @@ func ridOf(r *http.Request) string {
 func (w *World) targetName(t *server.Target) string {
 	name := server.VerifTargetName(t)
 	return name + "#" + strconv.Itoa(w.id("target:"+name, t))
+}
+
+var (
+	hooksOnce    sync.Once
+	currentWorld atomic.Pointer[World]
+)
+
+func installHooks() {
+	hooksOnce.Do(func() {
+		server.VerifYield = func(point string, objs ...any) {
+			if w := currentWorld.Load(); w != nil {
+				w.onYield(point, objs...)
+			}
+		}
+		server.VerifEmit = func(event string, objs ...any) {
+			if w := currentWorld.Load(); w != nil && !w.quiet.Load() {
+				w.onEmit(event, objs...)
+			}
+		}
+		server.VerifTransport = func(t *server.Target, tr *http.Transport) {
+			if w := currentWorld.Load(); w != nil {
+				tr.DialContext = w.net.Dialer("req")
+				w.mu.Lock()
+				w.trs = append(w.trs, tr)
+				w.mu.Unlock()
+			}
+		}
+	})
 }
 
 func (w *World) onYield(point string, objs ...any) {
@@ -1044,4 +1067,23 @@ func spinFor(us int) {
 	for rtNow()-t0 < int64(us)*1000 {
 		runtime.Gosched()
 	}
+}
+
+// panicLogWriter receives the front server's error log: "http: panic serving ..." means a handler of the proxy
+// panicked while serving a request (net/http recovers it and aborts the connection).
+type panicLogWriter struct{ w *World }
+
+func (p *panicLogWriter) Write(b []byte) (int, error) {
+	s := string(b)
+	if strings.Contains(s, "panic serving") {
+		what := s
+		if i := strings.Index(s, "panic serving"); i >= 0 {
+			what = firstLines(s[i:], 1)
+		}
+		stack := firstLines(s, 14)
+		if strings.Contains(s, "kamal-proxy/internal/server") {
+			p.w.rec.Emit("panic", KV{"c": "request", "what": what, "stack": stack})
+		}
+	}
+	return len(b), nil
 }
